@@ -1538,3 +1538,60 @@ def check_index_kept(ctx):
     if not n:
         ctx.holds('INDEX-KEPT', meth, '__getitem__ uses the index it was '
                   'given', at=meth.where(), nontrivial=False)
+
+
+# ------------------------------------------------------------- DS-SCALE ---
+
+def check_ds_scale(ctx):
+    """"a constant factor scales the error by its magnitude": for a number or
+    an array operand the error of a product / quotient is self.error * |k|
+    (or / |k|), computed as such.  Sending the scalar case through the
+    dataset-dataset quadrature formula with a zero error for the factor
+    (sqrt((e*k)**2 + (0*v)**2)) is the same number only while the squares
+    neither overflow nor underflow (float32 data: e*k below 1e-23 reads 0,
+    above 1.8e19 reads inf) and while 0 * v is 0 (v = inf gives nan)."""
+    klass = dataset_class(ctx.program)
+    n = 0
+    for mname in ('__mul__', '__truediv__'):
+        meth = klass.methods.get(mname)
+        if meth is None:
+            continue
+        defs = local_defs(meth)
+        parents = enclosing_chain(meth.node)
+        other = [p for p in meth.params if p != 'self'][0]
+        scalar_linear = False
+        unified_quad = None
+        for call in dataset_ctor_calls(meth):
+            err = ctor_arg(call, 1, 'error')
+            if err is None:
+                continue
+            rerr = resolve_local(err, defs)
+            is_ds = _other_is_dataset(meth, call, parents)
+            guarded = any(isinstance(t, ast.AST) and 'isinstance' in txt(t)
+                          and other in txt(t)
+                          for t, _ in V.path_condition(meth.node, call))
+            early = any(isinstance(node, ast.If) and 'isinstance' in txt(
+                node.test) and other in txt(node.test) and any(
+                    isinstance(s_, ast.Return) for s_ in node.body)
+                        for node in meth.node.body)
+            quad = isinstance(rerr, ast.Call) and call_name(rerr) in (
+                'sqrt', 'hypot')
+            if not is_ds and not quad and 'error' in txt(rerr):
+                scalar_linear = True
+            if quad and not guarded and not early:
+                unified_quad = (call, rerr)
+        n += 1
+        if unified_quad is not None and not scalar_linear:
+            ctx.violated(
+                'DS-SCALE', meth,
+                f'{mname}: number / array operands go through '
+                f'{txt(unified_quad[1])[:50]}', at=meth.where(unified_quad[0]),
+                detail='the squares of the quadrature formula overflow / '
+                       'underflow where e * |k| does not, and 0 * inf is '
+                       'nan: the error of `ds * k` is no longer e * |k|')
+        else:
+            ctx.decide('DS-SCALE', meth,
+                       f'{mname}: the number / array branch scales the error '
+                       f'linearly', True if scalar_linear else None,
+                       at=meth.where())
+    ctx.floor('DS-SCALE', n, 2, '__mul__ / __truediv__')
